@@ -150,6 +150,13 @@ def genPoly : Nat → List Nat
   | 0 => [1]
   | n + 1 => mulLinear (alpha (n + 1)) (genPoly n)
 
+/-- the 16 numbers of error codewords per block that occur in Table 7 -/
+def parityLengths : List Nat := [5, 7, 10, 11, 12, 14, 18, 20, 24, 28, 36, 42, 48, 56, 62, 68]
+
+/-- for each parity length the `n` non-leading coefficients of the generator polynomial, low order first
+    (the form in which Annex E tabulates them and implementations store them) -/
+def factorTable : List (List Nat) := parityLengths.map (fun n => (genPoly n).take n)
+
 /-- xor `ys` into the front of `xs` -/
 def xorPrefix : List Nat → List Nat → List Nat
   | x :: xs, y :: ys => (x ^^^ y) :: xorPrefix xs ys
